@@ -24,7 +24,7 @@ def replay(pid, path, seed):
     rec = json.load(open(path))
     inp = os.path.join(ctx.dir, "replay.in.ndjson")
     outp = os.path.join(ctx.dir, "replay.out.ndjson")
-    V.write_history_twice(inp, rec["history"])
+    V.write_history_twice(inp, rec["history"], rec.get("context"))
     if rec.get("kind") in ("hang", "hang-table"):
         with open(inp, "w") as f:
             for e in rec["history"]:
